@@ -342,6 +342,13 @@ def run(chk):
     ng_ = guardrules.check(chk, c, 'C05-G', ['core.ElementList._can_add_child', 'core.SupportComplexDataType._is_valid_child', 'core.Segment._is_valid_child', 'core.Group._is_valid_child', 'core.Component.add', 'core.Field.add', 'core.Component.add_subcomponent', 'core.CanBeVaries.__init__', 'core.Field.__init__', 'core.Component.__init__', 'core.SubComponent.__init__', 'core.Group.__init__', 'core.Segment.__init__', 'core.Element.__init__', 'core.SupportComplexDataType.__init__', 'core.SupportComplexDataType._set_datatype', 'core.SubComponent._set_datatype', 'core.SubComponent._set_value', 'core.SubComponent.add', 'core.SupportComplexDataType._set_value', 'core.ElementList.set', 'base_datatypes.BaseDataType.__init__'])
     chk.floor('refusal predicates compared (C05-G)', ng_, 1)
 
+    chk.rule('C05-D2', 'decision structure of the functions this property is anchored in: every effect statement (store, call, return, '
+                   'raise) runs under the same combinations of the function\'s elementary tests as in the reviewed tree, and none '
+                   'was deleted (reference/decisions.json; compared by meaning, rewritten functions are not compared)')
+    from . import guardrules as _gr
+    nd2_ = _gr.check_decisions(chk, c, 'C05-D2', lambda fq_: fq_.startswith(('core.SupportComplexDataType.', 'core.CanBeVaries.', 'core.SubComponent.', 'core.Component.')))
+    chk.floor('functions compared with the decision reference (C05-D2)', nd2_, 1)
+
 
 
 def _inside(root, node):
